@@ -45,28 +45,33 @@ func plans(c *core.Ctx) []Plan {
 	if !c.Thorough() {
 		return []Plan{
 			{Name: "lists", GasLimit: 2, MaxAge: 1, Unreg: []int{}, Ranks: defaultRanks, First: 2, MaxSlot: 3, TxGas: gas, MaxTx: 2,
-				MaxLag: 2, Laggards: []int{1, 2}, Tickers: all3(), Policies: pick(four, 2), Replay: 300},
-			{Name: "ptr", GasLimit: 2, MaxAge: 1, Unreg: []int{3}, Ranks: defaultRanks, First: 2, MaxSlot: 4, TxGas: []string{"Low"}, MaxTx: 3,
-				MaxLag: 1, MaxRestarts: 1, Laggards: []int{}, Tickers: all3(), Policies: pick(two, 1), Replay: 250},
+				MaxLag: 2, Laggards: []int{1, 2}, Tickers: all3(), Policies: pick(four, 1), Replay: 180},
+			{Name: "restart", GasLimit: 2, MaxAge: 1, Unreg: []int{}, Ranks: defaultRanks, First: 2, MaxSlot: 3, TxGas: []string{"Low"}, MaxTx: 1,
+				MaxLag: 1, MaxRestarts: 1, Laggards: []int{}, LateTicks: true, Tickers: all3(), Policies: pick(two, 1), Replay: 120},
+			{Name: "ptr", GasLimit: 2, MaxAge: 1, Unreg: []int{}, Ranks: defaultRanks, First: 2, MaxSlot: 4, TxGas: []string{"Low"}, MaxTx: 3,
+				MaxLag: 1, MaxRestarts: 0, Laggards: []int{}, Tickers: all3(), Policies: pick(two, 1), Replay: 160},
+			{Name: "unreg", GasLimit: 2, MaxAge: 1, Unreg: []int{3}, Ranks: defaultRanks, First: 2, MaxSlot: 4, TxGas: []string{"Low"}, MaxTx: 3,
+				MaxLag: 1, MaxRestarts: 0, Laggards: []int{}, EarlyBlocks: true, Tickers: all3(), Policies: pick(two, 1), Replay: 100},
 			{Name: "orders", GasLimit: 2, MaxAge: 1, Unreg: []int{}, Ranks: defaultRanks, First: 2, MaxSlot: 2, TxGas: []string{"Low"}, MaxTx: 1,
 				MaxLag: 2, MaxLoss: 1, Laggards: []int{2}, Tickers: []int{0, 1}, Policies: []string{"any"}, Replay: 0},
 		}
 	}
+	base := func(name string, first, last int, gas []string, maxTx int) Plan {
+		return Plan{Name: name, GasLimit: 2, MaxAge: 1, Unreg: []int{}, Ranks: defaultRanks, First: first, MaxSlot: last, TxGas: gas, MaxTx: maxTx,
+			MaxLag: 1, Laggards: []int{}, Tickers: all3(), Policies: []string{"sharesfirst"}, Replay: 1000}
+	}
+	with := func(p Plan, f func(*Plan)) Plan { f(&p); return p }
 	return []Plan{
-		{Name: "lists", GasLimit: 2, MaxAge: 1, Unreg: []int{}, Ranks: defaultRanks, First: 2, MaxSlot: 3, TxGas: []string{"none", "Low", "AtLimit", "Above"}, MaxTx: 3,
-			MaxLag: 2, Laggards: []int{1, 2}, EarlyBlocks: true, Tickers: all3(), Policies: four, Replay: 1500},
-		{Name: "lists3", GasLimit: 2, MaxAge: 2, Unreg: []int{}, Ranks: defaultRanks, First: 2, MaxSlot: 4, TxGas: []string{"Low", "Above"}, MaxTx: 3,
-			MaxLag: 2, Laggards: []int{2}, Tickers: all3(), Policies: two, Replay: 1200},
-		{Name: "ptr", GasLimit: 2, MaxAge: 1, Unreg: []int{3}, Ranks: defaultRanks, First: 2, MaxSlot: 4, TxGas: []string{"none", "Low"}, MaxTx: 3,
-			MaxLag: 1, MaxRestarts: 1, Laggards: []int{}, LateTicks: true, Tickers: all3(), Policies: two, Replay: 1200},
-		{Name: "loss", GasLimit: 2, MaxAge: 1, Unreg: []int{}, Ranks: defaultRanks, First: 2, MaxSlot: 3, TxGas: []string{"Low"}, MaxTx: 2,
-			MaxLag: 2, MaxLoss: 1, Laggards: []int{2}, Tickers: all3(), Policies: four, Replay: 1000},
-		{Name: "orders", GasLimit: 2, MaxAge: 1, Unreg: []int{}, Ranks: defaultRanks, First: 2, MaxSlot: 2, TxGas: []string{"Low"}, MaxTx: 1,
-			MaxLag: 1, MaxLoss: 1, Laggards: []int{}, Tickers: all3(), Policies: []string{"any"}, Replay: 1500},
-		{Name: "orders2", GasLimit: 2, MaxAge: 1, Unreg: []int{}, Ranks: defaultRanks, First: 2, MaxSlot: 3, TxGas: []string{"Low"}, MaxTx: 2,
-			MaxLag: 2, MaxLoss: 1, Laggards: []int{2}, Tickers: []int{0, 1}, Policies: []string{"any"}, Replay: 800},
-		{Name: "reorg", GasLimit: 2, MaxAge: 1, Unreg: []int{}, Ranks: defaultRanks, First: 2, MaxSlot: 4, TxGas: []string{"none", "Low"}, MaxTx: 3,
-			MaxLag: 2, AllowReorg: true, Laggards: []int{2}, Tickers: all3(), Policies: []string{"sharesfirst"}, Replay: 1200},
+		with(base("orders", 2, 2, []string{"Low"}, 1), func(p *Plan) { p.MaxLoss = 1; p.Policies = []string{"any"}; p.Replay = 1500 }),
+		with(base("lists", 2, 3, []string{"none", "Low", "Above"}, 2), func(p *Plan) { p.MaxLag = 2; p.Laggards = []int{1, 2}; p.Policies = four; p.Replay = 1500 }),
+		with(base("lists-early", 2, 3, []string{"Low", "AtLimit"}, 2), func(p *Plan) { p.MaxLag = 2; p.Laggards = []int{1, 2}; p.EarlyBlocks = true; p.Policies = two }),
+		with(base("lists3", 2, 4, []string{"Low", "Above"}, 3), func(p *Plan) { p.MaxLag = 2; p.Laggards = []int{2}; p.MaxAge = 2; p.Replay = 1200 }),
+		with(base("ptr", 2, 4, []string{"none", "Low"}, 3), func(p *Plan) { p.LateTicks = true; p.Policies = two; p.Replay = 1200 }),
+		with(base("restart", 2, 3, []string{"Low"}, 2), func(p *Plan) { p.MaxRestarts = 1; p.LateTicks = true; p.Policies = two }),
+		with(base("unreg", 2, 4, []string{"Low"}, 3), func(p *Plan) { p.Unreg = []int{3}; p.EarlyBlocks = true; p.MaxRestarts = 1; p.Policies = two }),
+		with(base("loss", 2, 3, []string{"Low"}, 2), func(p *Plan) { p.MaxLag = 2; p.Laggards = []int{2}; p.MaxLoss = 1; p.Policies = four }),
+		with(base("orders2", 2, 3, []string{"Low"}, 2), func(p *Plan) { p.MaxLag = 2; p.Laggards = []int{2}; p.MaxLoss = 1; p.Tickers = []int{0, 1}; p.Policies = []string{"any"}; p.Replay = 800 }),
+		with(base("reorg", 2, 3, []string{"none", "Low"}, 2), func(p *Plan) { p.MaxLag = 2; p.Laggards = []int{2}; p.AllowReorg = true; p.Replay = 1200 }),
 	}
 }
 
@@ -75,6 +80,7 @@ type VResult struct {
 	Lines int     `json:"lines"`
 	Viol  [][]any `json:"viol"`
 	Drift []int   `json:"drift"`
+	Obsv  [][]any `json:"obsv"`
 }
 
 func validate(p Plan, trace []byte) (*VResult, error) {
@@ -124,6 +130,7 @@ type outcome struct {
 	missing  int
 	drained  int
 	findings []Finding
+	obsv     []Finding
 	drift    []Line
 	driftN   int
 	tags     map[string]int
@@ -195,6 +202,9 @@ func runPlan(c *core.Ctx, p Plan, tlcWorkers, replayWorkers int) (*outcome, erro
 			}
 		}
 		c.Logf("gnoe2e plan %s: paths %v", p.Name, h)
+	}
+	if os.Getenv("VERIF_GNOE2E_GENONLY") != "" { // development aid: measure the model only
+		g.Beh = g.Beh[:1]
 	}
 	for i, b := range pickBehaviours(c, g) {
 		out.runs = append(out.runs, &Run{Plan: p, C: g.C, Beh: b.H, Seed: c.Seed*1000003 + int64(i+1), No: i + 1})
@@ -287,6 +297,17 @@ func runPlan(c *core.Ctx, p Plan, tlcWorkers, replayWorkers int) (*outcome, erro
 			l := ch.lines[int(n)-1]
 			out.findings = append(out.findings, Finding{Monitor: m, Plan: p, Pos: l.Pos, Line: l.J, run: byRun[l.Run]})
 		}
+		for _, v := range ch.vr.Obsv {
+			if len(v) != 2 {
+				continue
+			}
+			n, _ := v[0].(float64)
+			m, _ := v[1].(string)
+			if int(n) >= 1 && int(n) <= len(ch.lines) {
+				l := ch.lines[int(n)-1]
+				out.obsv = append(out.obsv, Finding{Monitor: m, Plan: p, Pos: l.Pos, Line: l.J, run: byRun[l.Run]})
+			}
+		}
 		for _, n := range ch.vr.Drift {
 			out.driftN++
 			if len(out.drift) < 3 && n >= 1 && n <= len(ch.lines) {
@@ -358,7 +379,15 @@ func Check(c *core.Ctx) int {
 		return replay(c, say)
 	}
 	known := core.LoadKnown().For(c.Prop)
+	if err := CheckSSZ(); err != nil {
+		say("NOTE: %v; signatures are judged against the specification\n", err)
+	}
 	ps := plans(c)
+	if path := os.Getenv("VERIF_GNOE2E_PATH"); path != "" { // validation of the proposed repair GNO-1 in a scratch worktree
+		for i := range ps {
+			ps[i].SharesPath = path
+		}
+	}
 	if only := os.Getenv("VERIF_GNOE2E_ONLY"); only != "" { // development aid: comma separated plan names
 		var keep []Plan
 		for _, p := range ps {
@@ -372,7 +401,7 @@ func Check(c *core.Ctx) int {
 	}
 	outs := make([]*outcome, len(ps))
 	errs := make([]error, len(ps))
-	par, tlcWorkers, replayWorkers := 3, 5, 8
+	par, tlcWorkers, replayWorkers := 5, 3, 5
 	if c.Thorough() {
 		par, tlcWorkers, replayWorkers = 2, 8, 8
 	}
@@ -404,6 +433,34 @@ func Check(c *core.Ctx) int {
 		}
 	}
 	violations := 0
+	// observations that are not verdicts of C19: finding GNO-1 (see docs/notes/C19-gnoe2e.md)
+	nObs := 0
+	var firstObs *Finding
+	for i := range ps {
+		nObs += len(outs[i].obsv)
+		if firstObs == nil && len(outs[i].obsv) > 0 {
+			firstObs = &outs[i].obsv[0]
+		}
+	}
+	if firstObs != nil {
+		r := firstObs.run
+		path := c.WriteReplay("gnoe2e-GNO1", ReplayFile{Prop: c.Prop, Stage: "gnoe2e", Seed: r.Seed, Run: r.No, Plan: firstObs.Plan, C: r.C, Beh: r.Beh,
+			Monitor: firstObs.Monitor, Pos: firstObs.Pos, Line: firstObs.Line})
+		isKnown := false
+		for _, k := range known {
+			if st, _ := k.Match["stage"].(string); st == "gnoe2e" {
+				if mon, _ := k.Match["monitor"].(string); mon == firstObs.Monitor {
+					os.Stdout = realStdout
+					core.PrintKnown(k)
+					isKnown = true
+				}
+			}
+		}
+		if !isKnown {
+			say("OBSERVATION stage=gnoe2e GNO-1 %s in %d replayed behaviours (replay=%s): a keyper that announces keys it already holds through the gnosis key share handler does not advance its own tx pointer; first in plan %s: %s\n",
+				firstObs.Monitor, nObs, path, firstObs.Plan.Name, behText(r.Beh, -1))
+		}
+	}
 	for i, p := range ps {
 		o := outs[i]
 		for _, dl := range o.drift {
@@ -472,7 +529,7 @@ func mergeEvidence(c *core.Ctx, ps []Plan, outs []*outcome, violations int, say 
 		}
 		info = append(info, J{"plan": p, "tlc_distinct_states": o.gen.Distinct, "tlc_states_generated": o.gen.States, "tlc_wall_s": o.gen.Wall,
 			"behaviours_printed": len(o.gen.Beh), "path_classes": len(classes), "behaviours_replayed": len(o.runs), "steps": o.steps,
-			"missing_steps": o.missing, "drained_steps": o.drained, "trace_lines_validated": o.lines, "drift_lines": o.driftN})
+			"missing_steps": o.missing, "drained_steps": o.drained, "trace_lines_validated": o.lines, "drift_lines": o.driftN, "observations_GNO1": len(o.obsv)})
 		if len(o.runs) > 0 && len(samples) < 3 {
 			r := o.runs[int(c.Seed%int64(len(o.runs))+int64(len(o.runs)))%len(o.runs)]
 			s := J{"plan": p.Name, "behaviour": behText(r.Beh, -1)}
@@ -532,7 +589,13 @@ func replay(c *core.Ctx, say func(string, ...any)) int {
 		say("INCONCLUSIVE: %v\n", err)
 		return core.ExitInconclusive
 	}
-	say("behaviour: %s\nviol=%v drift=%v\n", behText(rf.Beh, -1), vr.Viol, vr.Drift)
+	say("behaviour: %s\nviol=%v drift=%v obsv=%v\n", behText(rf.Beh, -1), vr.Viol, vr.Drift, vr.Obsv)
+	for _, v := range vr.Obsv {
+		if len(v) == 2 && v[1] == rf.Monitor {
+			say("OBSERVATION stage=gnoe2e reproduced %s (finding GNO-1; not a verdict of %s)\n", rf.Monitor, c.Prop)
+			return core.ExitOK
+		}
+	}
 	for _, v := range vr.Viol {
 		if len(v) == 2 && v[1] == rf.Monitor {
 			os.Stdout = os.NewFile(1, "/dev/stdout")
